@@ -121,10 +121,10 @@ def run_one(ch, env):
     twice = ch.draw(4, kind="walk_twice") == 3     # a Pyramid object may be walked again: same result expected
 
     def main():
-        pyr.walk(rec, parallel=workers, **common.pkw())
+        pyr.walk(rec, parallel=common.parg(workers), **common.pkw())
         if twice:
             sim.event("second-walk", 0, 0, 0)
-            pyr.walk(rec, parallel=workers, **common.pkw())
+            pyr.walk(rec, parallel=common.parg(workers), **common.pkw())
 
     main_task = sim.run(main)
     common.sim_summary(sim, res)
